@@ -83,12 +83,16 @@ Definition step_corr (k : step_case) : bool :=
 
 (* ---------- monitors: the property on observed values ---------- *)
 
-(* 1. cumulative outflow <= original - locked(now) + rewards + third-party deposits, with the
-      implementation's own locked(now); fee and bond denoms count 1:1, every other denom on its own *)
+(* 1. cumulative outflow <= original - locked(now) + rewards + third-party deposits.  locked(now) is
+      the schedule of Stake/Lockup.v (the one the theorems are about) evaluated on the account's own
+      stored original / start / end and the block time -- not the value the implementation reports,
+      so that an implementation whose schedule releases more than the schedule as specified is a
+      failing history and not only a correspondence break.  Fee and bond denoms count 1:1, every
+      other denom on its own. *)
 Definition mon_outflow (k : step_case) : bool :=
   let w := k_post k in
-  match k_lk_post k with
-  | None => true                     (* the schedule query panics: nothing can be sent either *)
+  match locked_view w (w_orig w) with
+  | None => true                     (* the schedule computation panics: nothing can be sent either *)
   | Some lk =>
       (bval (w_out w) <=? get FEE (w_orig w) - get FEE lk + bval (w_rew w) + bval (w_dep w)) &&
       forallb (fun d => bget (w_out w) d <=? get d (w_orig w) - get d lk + bget (w_rew w) d + bget (w_dep w) d) [1; 3]
